@@ -6,7 +6,7 @@ The property ranges over four node classes.  Each class is a *plug-in*: a triple
 This file registers BaseNode/Node (`cls=base|node`, pointer store of C01); the BinaryNode and
 DAGNode plug-ins are registered the same way (see `register`)."""
 from __future__ import annotations
-import random
+import random, zlib
 from runner import Case
 from props import _store_util as U
 
@@ -108,7 +108,32 @@ def _store_oracle(case):
         if not U.healthy(nodes):
             break
         before = after
+    if not msgs and ("corpus" in case.tags or zlib.crc32(case.line.encode()) % 23 == 0):
+        msgs += _off_process(d)
     return msgs
+
+
+def _off_process(d):
+    """C02 does not depend on the optional type/loop checks: a history in which the guards never have anything to
+    refuse (every refusal comes from a raising user hook or from Node's duplicate-name veto) must leave the very
+    same trace in an interpreter started with BIGTREE_CONF_ASSERTIONS="" - in particular every refused call must
+    still restore the store."""
+    nodes = U.make_nodes(d)
+    before = U.snap(nodes)
+    for op in d["ops"]:
+        if op[0] in ("K", "N", "F") or (d.get("asrt", 1) and U.must_reject(before, op, d["n"])):
+            return []          # a guard has something to refuse here: outside this comparison
+        if U.apply_op(nodes, op) == "hang" or not U.healthy(nodes):
+            return []
+        before = U.snap(nodes)
+    from props import _twoproc
+    here = U.show_trace(U.run_trace(d)[1])
+    there = _twoproc.call("off", "props._store_util:worker_eval", d)["trace"]
+    if here != there:
+        k = next((i for i, (a, b) in enumerate(zip(here.split(" ; "), there.split(" ; "))) if a != b), "?")
+        return [f"with BIGTREE_CONF_ASSERTIONS switched off (no guard has anything to refuse in this history) the trace "
+                f"differs from call #{k} on: default={here[-200:]} off={there[-200:]}"]
+    return []
 
 
 def _store_shrink(case):
